@@ -536,6 +536,33 @@ fn run_raw_chain<K: KeyT, V: ValT>(m: &mut M<K, V>, mode: &str, k: u64, ch: &[&s
     }
 }
 
+/// The by-reference `Extend` impls of `HashMap` (`K: Copy, V: Copy`), reached by downcasting to the
+/// concrete `Copy` element types the runners are instantiated with. `false`: not a `Copy` instantiation.
+fn extend_refs_any<K: KeyT, V: ValT>(m: &mut M<K, V>, items: &Vec<(K, V)>, form: u64) -> bool {
+    use crate::elems::*;
+    macro_rules! try_ty {
+        ($k:ty, $v:ty) => {
+            if let (Some(mm), Some(it)) = (
+                (m as &mut dyn std::any::Any).downcast_mut::<M<$k, $v>>(),
+                (items as &dyn std::any::Any).downcast_ref::<Vec<($k, $v)>>(),
+            ) {
+                if form == 0 {
+                    mm.extend(it.iter().map(|(k, v)| (k, v)));
+                } else {
+                    mm.extend(it.iter());
+                }
+                return true;
+            }
+        };
+    }
+    try_ty!(KC<()>, VC);
+    try_ty!(KC<A16>, VC);
+    try_ty!(KC<A64>, VC);
+    try_ty!(KC<Big>, VC);
+    try_ty!(K3, V2);
+    false
+}
+
 fn parse_items<K: KeyT, V: ValT>(a: &[&str]) -> Option<Vec<(K, V)>> {
     let cnt: usize = a.first()?.parse().ok()?;
     if a.len() != 1 + 4 * cnt {
@@ -638,6 +665,18 @@ pub fn run_entry<K: KeyT, V: ValT>(m: &mut M<K, V>, _other: &mut M<K, V>, name: 
             }
             None => bad(name, a),
         },
+        // `Extend<(&K, &V)>` (r0) / `Extend<&(K, V)>` (r1): only for `Copy` element types; other
+        // element types take the by-value impl (the model is `extend` in every case)
+        ("extend_r0", _) | ("extend_r1", _) => match parse_items::<K, V>(a) {
+            Some(items) => {
+                if !extend_refs_any(m, &items, if name == "extend_r0" { 0 } else { 1 }) {
+                    m.extend(items);
+                }
+                "()".into()
+            }
+            None => bad(name, a),
+        },
+
         ("from_iter", _) => match parse_items::<K, V>(a) {
             Some(items) => {
                 let old = std::mem::replace(m, new_map());
@@ -895,7 +934,7 @@ pub fn ref_entry(
         },
         "raw_from_key" | "raw_from_key_hashed" | "raw_from_hash" if a.len() >= 2 => ref_raw_chain(r, n(0), &a[1..]),
         "raw_get" | "raw_get_hash" => Some(r.get(&n(0)).map_or("-".into(), |e| fe(n(0), e))),
-        "extend" | "from_iter" => {
+        "extend" | "extend_r0" | "extend_r1" | "from_iter" => {
             if name == "from_iter" {
                 r.clear();
             }
@@ -1012,7 +1051,7 @@ pub fn moved_in(name: &str, a: &[&str]) -> Vec<String> {
                 _ => {}
             }
         }
-        "extend" | "from_iter" if !a.is_empty() => {
+        "extend" | "extend_r0" | "extend_r1" | "from_iter" if !a.is_empty() => {
             let cnt: usize = a[0].parse().unwrap_or(0);
             if a.len() == 1 + 4 * cnt {
                 for j in 0..cnt {
